@@ -89,6 +89,7 @@ struct CaseData
     std::vector<LibEntry> lib;
     std::vector<Op> ops;
     int probe = 0;
+    int twinOrder = 0; // != 0: the probe analyses a model on the analyser that has just analysed its twin (same units name, other meaning)
     bool libFiles = false, libFileBroken = false; // the library also exists as files; the first one has a parse error inside the imported component
     std::vector<char> slice; // ops the probe depends on (including itself)
 };
@@ -676,6 +677,65 @@ CaseData generate(Src &src)
             m.kind += ", units unlinked";
         }
         cd.models.push_back(m);
+    }
+
+    // ---- "same analyser, model B after model A" where B redefines (does not rename) a units that a cn uses: an Analyser that
+    // remembers anything by units NAME across calls gives B the meaning the name had in A. No tape read of its own: chosen by
+    // values already drawn (5 or 9 calls, an even number of calls on new instances, an analysable pool model); it rewrites the probe
+    // and the call before it.
+    size_t freshOps = 0;
+    for (const auto &o : cd.ops) {
+        freshOps += o.fresh ? 1 : 0;
+    }
+    if (nOps % 4 == 1 && freshOps % 2 == 0) {
+        int t = -1;
+        for (size_t i = 0; i < cd.models.size() && t < 0; ++i) {
+            if (pp.modelKinds[i] == 0 && !cd.models[i].spec.comps.empty()) {
+                t = static_cast<int>(i);
+            }
+        }
+        if (t >= 0) {
+            ModelItem &a = cd.models[static_cast<size_t>(t)];
+            UnitsSpec rate;
+            rate.name = "vp_rate_units";
+            UnitSpec child;
+            child.ref = "second";
+            child.exponent = -1.0;
+            rate.units.push_back(child);
+            a.spec.units.push_back(rate);
+            VarSpec k;
+            k.name = "vp_k";
+            k.units = "vp_rate_units";
+            a.spec.comps[0].vars.push_back(k);
+            a.spec.comps[0].math.push_back("<math xmlns=\"http://www.w3.org/1998/Math/MathML\" xmlns:cellml=\"http://www.cellml.org/cellml/2.0#\"><apply><eq/><ci>vp_k</ci><cn cellml:units=\"vp_rate_units\">2</cn></apply></math>");
+            a.math = true;
+            a.unlinked = false;
+            a.kind = "analysable, cn in vp_rate_units = second^-1";
+            ModelItem b = a;
+            b.spec.units.back().units[0].ref = "volt";
+            b.spec.units.back().units[0].exponent = 1.0;
+            b.kind = "analysable, the same model with vp_rate_units = volt";
+            cd.models.push_back(b);
+            const int twin = static_cast<int>(cd.models.size()) - 1;
+            cd.twinOrder = (cd.docs.size() + cd.models.size() + freshOps / 2) % 2 == 0 ? 1 : 2; // 1: A then B (probe), 2: B then A (probe)
+            for (int k2 = 0; k2 < 2; ++k2) {
+                const int idx = cd.probe - 1 + k2;
+                Op &o = cd.ops[static_cast<size_t>(idx)];
+                o = Op();
+                o.svc = ANALYSE;
+                o.refKind = 0;
+                o.ref = ((k2 == 0) == (cd.twinOrder == 1)) ? t : twin;
+                o.fresh = false;
+                // later calls that used what the replaced call returned fall back to a pool item
+                for (size_t later = static_cast<size_t>(idx) + 1; later < cd.ops.size(); ++later) {
+                    Op &l = cd.ops[later];
+                    if (l.svc != GENERATE && l.refKind == 1 && l.ref == idx) {
+                        l.refKind = 0;
+                        l.ref = 0;
+                    }
+                }
+            }
+        }
     }
 
     // ---- file-based library (no tape read of its own)
@@ -1896,6 +1956,10 @@ void run(Src &tapeSrc, Case &c)
         differentBefore = differentBefore || s != pop.svc;
     }
     c.cls(std::string("probe:") + kShort[pop.svc]);
+    if (cd.twinOrder != 0) {
+        c.cls("analyser-reuse:same-units-name-other-meaning");
+        c.cls(cd.twinOrder == 1 ? "analyser-reuse:redefined-after-original" : "analyser-reuse:original-after-redefined");
+    }
     c.cls(sharedUsedBefore ? "instance:reused-after-use" : "instance:first-use");
     c.cls("ops=" + std::to_string(cd.ops.size() <= 3 ? cd.ops.size() : (cd.ops.size() <= 6 ? 4 : 7)) + (cd.ops.size() <= 3 ? "" : "+"));
     // does the probe input contain math or imports?
